@@ -26,6 +26,8 @@ pub fn run_pattern(p: &Pat, n: usize, factor: usize, rng: &mut Rng) -> String {
     let total = n * factor;
     let payload = vec![0x5au8; p.m * p.bm.max(2) + 8];
     for round in 0..total {
+        // long patterns (10^6 rounds of large messages) take longer than the watchdog's 10 s: report progress every 1024 rounds (a single hanging round is still caught)
+        if round % 1024 == 1023 { crate::PROGRESS.fetch_add(1, std::sync::atomic::Ordering::Relaxed); }
         let m = if p.vary { 1 + rng.below(p.m as u64) as usize } else { p.m };
         let m = if p.bp > 0 && round % p.bp == p.bp - 1 { m * p.bm } else { m };
         bmax = bmax.max(buf.len() + m);
